@@ -78,6 +78,21 @@ def Isolation {β : Type} (before after : View) (src : Nat) (o : Obs β) : Prop 
     if e.1 = src then before.isBridged src = false
     else after.isBridged e.1 = true ∧ after.partnerOf e.1 = some src ∧ after.isBridged src = true
 
+/-- "in order and without loss while both stay connected" when the receiving side is slow: while the bridged partner
+    of the sender is not reading, a step of the sender delivers nothing to anybody and disconnects nobody (the relay
+    holds the bytes) … -/
+def Held {β : Type} (o : Obs β) : Prop := o.rx.isEmpty = true ∧ o.closed = []
+
+/-- … and when that partner `k` reads again it finds exactly the bytes `owed` to it — everything its partner sent
+    meanwhile, in order, nothing dropped or duplicated, however the relay's writes were split — and nobody is
+    disconnected. -/
+def CatchUp {β : Type} (k : Nat) (owed : Option β) (o : Obs β) : Prop :=
+  o.closed = [] ∧ o.rx = (match owed with | none => [] | some d => [(k, d)])
+
+instance {β : Type} (o : Obs β) : Decidable (Held o) := by unfold Held; exact inferInstance
+instance {β : Type} [DecidableEq β] (k : Nat) (d : Option β) (o : Obs β) : Decidable (CatchUp k d o) := by
+  unfold CatchUp; exact inferInstance
+
 /-- a step in which no client sent anything (connect, disconnect) delivers nothing -/
 def Quiet {β : Type} (o : Obs β) : Prop := o.rx.isEmpty = true
 
